@@ -132,38 +132,12 @@ func cmdCheck(args []string) int {
 	if *trace {
 		cfg.workers = 1
 	}
-	overlay, err := buildOverlay(repoDir, verifDir, spec)
-	if err != nil {
-		fmt.Fprintln(os.Stderr, "CHECK-ERROR:", err)
-		return 2
+	parts := spec.Parts
+	if len(parts) == 0 {
+		parts = []*checkSpec{spec}
 	}
-	w, err := loadWorld(repoDir, overlay, spec, cfg)
-	if err != nil {
-		fmt.Fprintln(os.Stderr, "CHECK-ERROR:", err)
-		return 2
-	}
-	loadS := time.Since(t0).Seconds()
-	// harnesses
-	var hs []*ssa.Function
-	prefix := "verifHarness_" + id + "_"
-	for name, mem := range w.mainPkg.Members {
-		if fn, ok := mem.(*ssa.Function); ok && strings.HasPrefix(name, prefix) {
-			if strings.HasSuffix(name, "_T") && cfg.tier == 0 {
-				continue
-			}
-			if strings.HasSuffix(name, "_Q") && cfg.tier == 1 {
-				continue
-			}
-			if *only != "" && !strings.Contains(name, *only) {
-				continue
-			}
-			hs = append(hs, fn)
-		}
-	}
-	sort.Slice(hs, func(i, j int) bool { return hs[i].Name() < hs[j].Name() })
-	if len(hs) == 0 {
-		fmt.Fprintln(os.Stderr, "CHECK-ERROR: no harness functions with prefix", prefix)
-		return 2
+	for _, pt := range parts {
+		pt.ID = spec.ID
 	}
 	budget := 0
 	if spec.Timeout != nil {
@@ -182,70 +156,109 @@ func cmdCheck(args []string) int {
 	var totalStats solverStats
 	exhaustive := true
 	vacuous := []string{}
-	for i, h := range hs {
-		res := newResults()
-		// split the remaining budget evenly over remaining harnesses
-		remain := time.Until(deadlineAll)
-		per := remain / time.Duration(len(hs)-i)
-		if per < 5*time.Second {
-			per = 5 * time.Second
-		}
-		cfg.deadline = time.Now().Add(per)
-		th0 := time.Now()
-		timedOut, stats, err := explore(w, h, res)
+	loadS := 0.0
+	overlays := map[string]map[string][]byte{}
+	harnessPart := map[string]*checkSpec{}
+	nh := 0
+	for pi, part := range parts {
+		tl := time.Now()
+		overlay, err := buildOverlay(repoDir, verifDir, part)
 		if err != nil {
 			fmt.Fprintln(os.Stderr, "CHECK-ERROR:", err)
 			return 2
 		}
-		hr := harnessResult{Name: h.Name(), Paths: res.paths, ByKind: res.byKind, Reached: res.reached, Bounds: res.bounds,
-			Queries: stats.queries, Sat: stats.sat, Unsat: stats.unsat, Unknown: stats.unknown, SolverS: stats.wall.Seconds(),
-			WallS: time.Since(th0).Seconds(), Steps: res.steps, Asserts: res.asserts, AssertsSym: res.assertsSym, TimedOut: timedOut}
-		bad := res.byKind["unsupported"] + res.byKind["bound-exceeded"] + res.byKind["inconclusive"] + res.byKind["engine-error"]
-		hr.Exhaustive = !timedOut && bad == 0 && stats.errors == 0
-		if bad > 0 || timedOut {
-			hr.Messages = res.msgs
+		overlays[part.Dir] = overlay
+		w, err := loadWorld(repoDir, overlay, part, cfg)
+		if err != nil {
+			fmt.Fprintln(os.Stderr, "CHECK-ERROR:", err)
+			return 2
 		}
-		hr.Witness = res.reached["witness"] > 0
-		if !hr.Witness {
-			vacuous = append(vacuous, h.Name())
+		loadS += time.Since(tl).Seconds()
+		var hs []*ssa.Function
+		prefix := "verifHarness_" + id + "_"
+		for name, mem := range w.mainPkg.Members {
+			if fn, ok := mem.(*ssa.Function); ok && strings.HasPrefix(name, prefix) {
+				if strings.HasSuffix(name, "_T") && cfg.tier == 0 {
+					continue
+				}
+				if strings.HasSuffix(name, "_Q") && cfg.tier == 1 {
+					continue
+				}
+				if *only != "" && !strings.Contains(name, *only) {
+					continue
+				}
+				hs = append(hs, fn)
+			}
 		}
-		if !hr.Exhaustive {
-			exhaustive = false
-		}
-		hres = append(hres, hr)
-		totalStats.queries += stats.queries
-		totalStats.sat += stats.sat
-		totalStats.unsat += stats.unsat
-		totalStats.unknown += stats.unknown
-		totalStats.errors += stats.errors
-		totalStats.wall += stats.wall
-		// merge
-		all.paths += res.paths
-		for k, v := range res.byKind {
-			all.byKind[k] += v
-		}
-		for k, v := range res.violations {
-			all.violations[k] = v
-		}
-		for k, v := range res.fnsEncoded {
-			all.fnsEncoded[k] = v
-		}
-		for k, v := range res.reached {
-			all.reached[h.Name()+":"+k] += v
-		}
-		all.samples = append(all.samples, res.samples...)
-		all.asserts += res.asserts
-		all.assertsSym += res.assertsSym
-		all.steps += res.steps
-		if *verbose || true {
+		sort.Slice(hs, func(i, j int) bool { return hs[i].Name() < hs[j].Name() })
+		nh += len(hs)
+		for i, h := range hs {
+			harnessPart[h.Name()] = part
+			res := newResults()
+			remain := time.Until(deadlineAll)
+			// split the remaining budget over the remaining harnesses (of this part) and parts
+			per := remain / time.Duration((len(hs)-i)+(len(parts)-pi-1)*2)
+			if per < 5*time.Second {
+				per = 5 * time.Second
+			}
+			cfg.deadline = time.Now().Add(per)
+			th0 := time.Now()
+			timedOut, stats, err := explore(w, h, res)
+			if err != nil {
+				fmt.Fprintln(os.Stderr, "CHECK-ERROR:", err)
+				return 2
+			}
+			hr := harnessResult{Name: h.Name(), Paths: res.paths, ByKind: res.byKind, Reached: res.reached, Bounds: res.bounds,
+				Queries: stats.queries, Sat: stats.sat, Unsat: stats.unsat, Unknown: stats.unknown, SolverS: stats.wall.Seconds(),
+				WallS: time.Since(th0).Seconds(), Steps: res.steps, Asserts: res.asserts, AssertsSym: res.assertsSym, TimedOut: timedOut}
+			bad := res.byKind["unsupported"] + res.byKind["bound-exceeded"] + res.byKind["inconclusive"] + res.byKind["engine-error"]
+			hr.Exhaustive = !timedOut && bad == 0 && stats.errors == 0
+			if bad > 0 || timedOut {
+				hr.Messages = res.msgs
+			}
+			hr.Witness = res.reached["witness"] > 0
+			if !hr.Witness {
+				vacuous = append(vacuous, h.Name())
+			}
+			if !hr.Exhaustive {
+				exhaustive = false
+			}
+			hres = append(hres, hr)
+			totalStats.queries += stats.queries
+			totalStats.sat += stats.sat
+			totalStats.unsat += stats.unsat
+			totalStats.unknown += stats.unknown
+			totalStats.errors += stats.errors
+			totalStats.wall += stats.wall
+			all.paths += res.paths
+			for k, v := range res.byKind {
+				all.byKind[k] += v
+			}
+			for k, v := range res.violations {
+				all.violations[k] = v
+			}
+			for k, v := range res.fnsEncoded {
+				all.fnsEncoded[k] = v
+			}
+			for k, v := range res.reached {
+				all.reached[h.Name()+":"+k] += v
+			}
+			all.samples = append(all.samples, res.samples...)
+			all.asserts += res.asserts
+			all.assertsSym += res.assertsSym
+			all.steps += res.steps
 			fmt.Fprintf(os.Stderr, "[%s] %s: paths=%d %v queries=%d (sat %d unsat %d unknown %d) solver=%.1fs wall=%.1fs exhaustive=%v witness=%v\n",
 				id, h.Name(), res.paths, res.byKind, stats.queries, stats.sat, stats.unsat, stats.unknown, stats.wall.Seconds(), hr.WallS, hr.Exhaustive, hr.Witness)
 			for k, v := range res.msgs {
 				fmt.Fprintf(os.Stderr, "    %dx %s\n", v, k)
 			}
 		}
+		w.closeMachines()
 	}
-	w.closeMachines()
+	if nh == 0 {
+		fmt.Fprintln(os.Stderr, "CHECK-ERROR: no harness functions for", id)
+		return 2
+	}
 
 	// triage violations against known findings
 	rc := 0
@@ -274,7 +287,8 @@ func cmdCheck(args []string) int {
 		}
 		// new violation: write replay directory and try native reproduction
 		dir := filepath.Join(verifDir, "replay", id, sanitize(sig))
-		status := writeAndReplay(dir, spec, v, overlay)
+		part := harnessPart[v.Harness]
+		status := writeAndReplay(dir, part, v, overlays[part.Dir])
 		vioOut = append(vioOut, map[string]interface{}{"signature": sig, "msg": v.Msg, "replay": dir, "native": status, "count": v.Count, "inputs": v.Inputs, "notes": v.Notes})
 		switch status {
 		case "reproduced", "interp-only":
@@ -304,6 +318,7 @@ func cmdCheck(args []string) int {
 	if !*noEvidence && *only == "" {
 		writeEvidence(id, *tier, seed, spec, hres, all, totalStats, time.Since(t0).Seconds(), loadS, nviol, vioOut, exhaustive, knownHit)
 	}
+	hs := hres
 	fmt.Fprintf(os.Stderr, "[%s] tier=%s harnesses=%d paths=%d queries=%d solver=%.1fs wall=%.1fs violations=%d known=%d exit=%d\n",
 		id, *tier, len(hs), all.paths, totalStats.queries, totalStats.wall.Seconds(), time.Since(t0).Seconds(), nviol, len(knownHit), rc)
 	return rc
